@@ -142,6 +142,11 @@ def gen_case(rng, tier, ctx, i):
         ctx.count("count:deep-models")
         return {"recipe": rec, "seed": rng.getrandbits(32)}
     o = common.varied_opts(rng, tier)
+    if rng.random() < 0.03:
+        from . import c03
+        sc = c03.special_case(rng, ctx)          # thresholds of large magnitude met/missed by one; sub-propositions without children
+        sc.pop("interps", None)
+        return sc
     if rng.random() < 0.06:
         from . import confgen
         ctx.count("count:configurator-models")
